@@ -125,6 +125,7 @@ def generate(req):
         c.execute("create table t_alias(id INTEGER PRIMARY KEY, v, w TEXT COLLATE RTRIM)")
         c.execute("create index ix_alias_v on t_alias(v DESC)")
         c.execute("create index ix_alias_w on t_alias(w)")
+        c.execute("create index ix_alias_w2 on t_alias(w COLLATE NOCASE DESC)")
         ids = set()
         m = max(4, n // 2)
         for i in range(m):
@@ -162,6 +163,7 @@ def generate(req):
     if "cpk" in feats:
         c.execute("create table t_cpk(a INTEGER, b TEXT COLLATE NOCASE, c, PRIMARY KEY(a, b DESC))")
         c.execute("create index ix_cpk_c on t_cpk(c, a)")
+        c.execute("create index ix_cpk_b on t_cpk(b COLLATE BINARY, c)")
         m = max(4, n // 3)
         c.executemany("insert or ignore into t_cpk values(?,?,?)",
                       [(r.randint(0, 12) if r.random() > 0.05 else None, g.text_value(), g.any_value()) for i in range(m)])
@@ -170,6 +172,7 @@ def generate(req):
         c.execute("create table t_wr(a, b TEXT, c INTEGER, d, PRIMARY KEY(c, a)) WITHOUT ROWID")
         c.execute("create index ix_wr_d on t_wr(d)")
         c.execute("create index ix_wr_bc on t_wr(b DESC, c)")
+        c.execute("create index ix_wr_anc on t_wr(a COLLATE NOCASE)")
         m = max(4, n // 2)
         c.executemany("insert or ignore into t_wr values(?,?,?,?)",
                       [(g.any_value(nullp=0), g.text_value() if r.random() > 0.1 else None,
@@ -178,6 +181,7 @@ def generate(req):
     if "wr2" in feats:
         c.execute("create table t_wr2(k TEXT COLLATE NOCASE, n, v, PRIMARY KEY(k DESC)) WITHOUT ROWID")
         c.execute("create index ix_wr2_n on t_wr2(n)")
+        c.execute("create index ix_wr2_nk on t_wr2(n, k COLLATE BINARY)")
         m = max(4, n // 3)
         c.executemany("insert or ignore into t_wr2 values(?,?,?)",
                       [(g.text_value() + (str(r.randint(0, m)) if r.random() < 0.7 else ""), r.randint(0, 9) if r.random() > 0.1 else None,
@@ -186,6 +190,7 @@ def generate(req):
         c.executemany("insert or ignore into t_wr4 values(?,?,?)", [(r.randint(-50, 50), g.text_value(), g.any_value()) for i in range(m)])
         c.execute("create table t_wr3(x INTEGER, y INTEGER, z TEXT, w, PRIMARY KEY(z, x, y)) WITHOUT ROWID")
         c.execute("create index ix_wr3_wy on t_wr3(w, y)")
+        c.execute("create index ix_wr3_znc on t_wr3(z COLLATE NOCASE)")
         c.executemany("insert or ignore into t_wr3 values(?,?,?,?)",
                       [(r.randint(0, 5), r.randint(0, 5), r.choice(["p", "q", "P", "r "]), g.any_value()) for i in range(m)])
 
@@ -198,6 +203,14 @@ def generate(req):
             for d in range(-12, 13):
                 if base + d >= 0 and r.random() < prof.get("big_density", 0.35):
                     lens.add(base + d)
+        # K == X exactly and its neighbours: P = X + n*(U-4) for the table and the index threshold
+        for x in (xt, xi):
+            for nn in (1, 2):
+                for d in (-1, 0, 1):
+                    lens.add(x + nn * (ps - 4) + d - 3)   # -3: record header (2) + ... so that the payload itself sweeps the point
+                    lens.add(x + nn * (ps - 4) + d - 2)
+                    lens.add(x + nn * (ps - 4) + d - 4)
+                    lens.add(x + nn * (ps - 4) + d - 5)
         for extra in prof.get("big_extra", [5 * ps + 17, 11 * ps]):
             lens.add(int(extra))
         rows = []
@@ -224,6 +237,10 @@ def generate(req):
     if "misc" in feats:
         c.execute("create table t_empty(x, y)")
         c.execute("create index ix_empty_x on t_empty(x)")
+        # real columns that carry the names of the rowid keywords (only _rowid_ still means the rowid)
+        c.execute('create table t_rowidname(oid TEXT, rowid INTEGER, v)')
+        c.executemany("insert into t_rowidname values(?,?,?)", [("o%d" % i, 1000 - i, g.any_value()) for i in range(max(3, n // 20))])
+        c.execute('create index ix_rowidname on t_rowidname(rowid, oid)')
         c.execute("create table t_one(x)")
         c.execute("insert into t_one values('only')")
         if "plain" in feats:
